@@ -404,6 +404,21 @@ func RemoveTempDir(dir string) { os.RemoveAll(dir) }
 // an observation such as len(ch) and the send or receive that relies on it.
 func SchedPreemptBeforeChanOps(on bool) {}
 
+// Concretize makes the engine fork over the feasible values of n here (each
+// path continues with a concrete n). Natively it is the identity.
+func Concretize(n int) int { return n }
+
+// BigChoose is Choose(n) for large n: two nested small choices, so that the
+// engine's chain of value decisions stays short.
+func BigChoose(n int) int {
+	const w = 20
+	hi := Concretize(Choose((n + w - 1) / w))
+	lo := Concretize(Choose(w))
+	idx := hi*w + lo
+	Assume(idx < n)
+	return idx
+}
+
 // RaceDetect turns on the engine's happens-before race detector for the rest
 // of the path: two conflicting accesses to an interpreted heap cell or Go map
 // by different tasks that are not ordered by the modelled synchronisation are
